@@ -7,10 +7,12 @@ import (
 	"encoding/hex"
 	"encoding/json"
 	"fmt"
+	"github.com/jdillenkofer/pithos/internal/verifhook"
 	"io"
 	"os"
 	"strings"
 	"sync"
+	"sync/atomic"
 	"time"
 
 	"github.com/anishathalye/porcupine"
@@ -331,6 +333,11 @@ func runC07(tier, replay string) {
 		_ = s.Stop(ctx)
 		env.Close()
 	}
+	if replay == "" {
+		for i := 0; i < r.N(1, 3); i++ {
+			stalledOutboxScenario(ctx, r, i)
+		}
+	}
 	if replay != "" {
 		if r.Violations() > 0 {
 			fmt.Println("replay: reproduced")
@@ -549,4 +556,131 @@ func runC07History(ctx context.Context, s storage.Storage, bn storage.BucketName
 	}
 	rec.done(98, c07In{Kind: "get"}, call, out)
 	return rec.ops
+}
+
+// stalledOutboxScenario: the storage outbox worker is held for ~11.5 s right after
+// replaying the first of two queued unconditional puts of one key, so the second
+// acknowledged put stays queued for a long time; conditional writers issued in
+// that window must still be evaluated against the acknowledged state (they have
+// to wait for the drain), whatever the backlog. The history is checked with the
+// same porcupine model.
+func stalledOutboxScenario(ctx context.Context, r *vkit.Run, idx int) {
+	env, err := vkit.OpenEnv(r.SubDir(fmt.Sprintf("c07-stalled-%d", idx)))
+	if err != nil {
+		r.Inconclusive(err.Error())
+		return
+	}
+	defer env.Close()
+	inner, err := env.NewStorageUnstarted("sql", vkit.FastGC()...)
+	if err != nil {
+		r.Inconclusive(err.Error())
+		return
+	}
+	repo, err := repositoryfactory.NewStorageOutboxEntryRepository(env.DB)
+	if err != nil {
+		r.Inconclusive(err.Error())
+		return
+	}
+	s, err := storageoutbox.NewStorage(env.DB, "c07-stalled", inner, repo, prometheus.NewRegistry(), 0)
+	if err != nil {
+		r.Inconclusive(err.Error())
+		return
+	}
+	var stalled atomic.Bool
+	verifhook.Clear()
+	verifhook.Set("storageoutbox.after-replay", func(_ string, n int64) error {
+		if n == 2 { // 1 = CreateBucket, 2 = first put
+			stalled.Store(true)
+			time.Sleep(11500 * time.Millisecond)
+		}
+		return nil
+	})
+	defer verifhook.Clear()
+	if err := s.Start(ctx); err != nil {
+		r.Inconclusive(err.Error())
+		return
+	}
+	defer s.Stop(ctx)
+	bn := storage.MustNewBucketName("c07-stalled")
+	if err := s.CreateBucket(ctx, bn); err != nil {
+		r.Inconclusive(err.Error())
+		return
+	}
+	key := storage.MustNewObjectKey("k")
+	rec := &recorder{}
+	classify := func(err error) c07Out {
+		switch vmodel.ErrKind(err) {
+		case "":
+			return c07Out{Res: "ok"}
+		case "PreconditionFailed":
+			return c07Out{Res: "pf"}
+		}
+		return c07Out{Res: "unknown", Err: err.Error()}
+	}
+	b1, b2 := valueBody("stall-v1", 400), valueBody("stall-v2", 400)
+	for i, b := range [][]byte{b1, b2} {
+		call := rec.call()
+		_, err := s.PutObject(ctx, bn, key, nil, bytes.NewReader(b), nil, nil)
+		rec.done(90+i, c07In{Kind: "put", Value: valueOfBody(b)}, call, classify(err))
+	}
+	// wait until the worker sits in the stall (first put replayed, second still queued)
+	for i := 0; i < 400 && !stalled.Load(); i++ {
+		time.Sleep(25 * time.Millisecond)
+	}
+	if !stalled.Load() {
+		r.Inconclusive("stalled-outbox scenario: the worker never reached the stall point")
+		return
+	}
+	var wg sync.WaitGroup
+	type cop struct {
+		in   c07In
+		call func() error
+	}
+	b3, b4 := valueBody("stall-v3", 300), valueBody("stall-v4", 300)
+	ops := []cop{
+		{c07In{Kind: "put-im", Value: "stall-v3", Expect: "stall-v1"}, func() error {
+			_, err := s.PutObject(ctx, bn, key, nil, bytes.NewReader(b3), nil, &storage.PutObjectOptions{IfMatchETag: vkit.Ptr(putETag(b1))})
+			return err
+		}},
+		{c07In{Kind: "delete-im", Expect: "stall-v1"}, func() error {
+			_, err := s.DeleteObject(ctx, bn, key, &storage.DeleteObjectOptions{IfMatchETag: vkit.Ptr(putETag(b1))})
+			return err
+		}},
+		{c07In{Kind: "put-inm", Value: "stall-v4"}, func() error {
+			_, err := s.PutObject(ctx, bn, key, nil, bytes.NewReader(b4), nil, &storage.PutObjectOptions{IfNoneMatchStar: true})
+			return err
+		}},
+	}
+	for i, o := range ops {
+		wg.Add(1)
+		go func(i int, o cop) {
+			defer wg.Done()
+			call := rec.call()
+			err := o.call()
+			rec.done(i, o.in, call, classify(err))
+		}(i, o)
+	}
+	wg.Wait()
+	call := rec.call()
+	_, rds, err := s.GetObject(ctx, bn, key, nil, nil)
+	out := c07Out{Res: "absent"}
+	if err == nil {
+		var buf bytes.Buffer
+		for _, rd := range rds {
+			io.Copy(&buf, rd)
+			rd.Close()
+		}
+		out = c07Out{Res: "value", Value: valueOfBody(buf.Bytes())}
+	} else if k := vmodel.ErrKind(err); k != "NoSuchKey" && k != "DeleteMarker" {
+		out = c07Out{Res: "unknown", Err: err.Error()}
+	}
+	rec.done(98, c07In{Kind: "get"}, call, out)
+	res, _ := porcupine.CheckOperationsVerbose(c07Model, rec.ops, 60*time.Second)
+	r.Count("stalled_outbox_scenarios", 1)
+	r.Count("porcupine:"+string(res), 1)
+	r.Eval("stalled-outbox|" + interleavingSignature(rec.ops))
+	if res == porcupine.Illegal {
+		r.Violation("not-linearizable:outbox-stalled-backlog", "conditional writes issued while an acknowledged put was still queued behind a stalled outbox worker were evaluated against stale state",
+			c07Witness{Variant: "outbox-sql-stalled", Index: idx, History: describeHistory(rec.ops, c07Describe), Verdict: string(res)})
+	}
 }
